@@ -1,6 +1,221 @@
-(** C01 — property theorems (stage a placeholder: the engine of an empty schedule returns at once). *)
-From Akita Require Import Lib.Base Lib.Engine C01.Model.
+(** C01 — the serial engine handles every scheduled event exactly once, in time / phase / FIFO order,
+    and Run returns only when no event remains.  Property theorems only.
 
-Theorem c01_empty_returns : forall p cap, r_out (run_script p cap []) = Done.
-Proof. reflexivity. Qed.
-Print Assumptions c01_empty_returns.
+    Setting of every theorem: an arbitrary event type [E] with its time [etime] and class [esec],
+    an arbitrary handler program [H : HS -> E -> HS * list E] (state of all handlers, handled event
+    -> new state and the events passed to Schedule, in call order) that never schedules in the past
+    ([H_ok]), an arbitrary engine state [en0] satisfying the engine invariant [e_ok] (heap shape,
+    sequence numbers below nextSeq and distinct, primaries/secondaries in their own queue, clock not
+    after any queued event) — [c01_initial_schedule_ok] shows that any list of initial Schedule calls on a
+    fresh engine gives such a state — and any amount of fuel (= any run length).  "Terminates" is
+    [r_out r = Done].  A queued entry is [(event, seq)] as in eventqueue.go; its identity is
+    [ident] = (class, seq); [handled log] / [scheduled log] are the entries handled / queued by
+    Schedule during the run, in order. *)
+From Akita Require Import Lib.Base Lib.Engine Lib.EngineProofs Lib.EngineRunProofs C01.Model C01.Proofs.
+From Coq Require Import Permutation Sorted.
+Local Open Scope N_scope.
+
+(* ------------------------------------------------------------------ the heap *)
+
+(** eventHeap.up / Push keeps the heap shape and adds exactly the pushed entry. *)
+Theorem c01_heap_push : forall (E : Type) (etime : E -> N) (h : list (@qev E)) (x : @qev E),
+  heap_ok (qless etime) h ->
+  heap_ok (qless etime) (hpush (qless etime) h x) /\ Permutation (hpush (qless etime) h x) (x :: h).
+Proof.
+  intros E etime h x Hok. split.
+  - apply (hpush_ok _ (qless_asym etime) (qhle_trans etime)). exact Hok.
+  - apply (hpush_perm _ (qless_asym etime) (qhle_trans etime)).
+Qed.
+Print Assumptions c01_heap_push.
+
+(** popHeap returns the root, which is a (time, seq)-minimum, removes exactly it, and the
+    remaining heap has the heap shape again. *)
+Theorem c01_heap_pop_min : forall (E : Type) (etime : E -> N) (h : list (@qev E)),
+  heap_ok (qless etime) h -> h <> [] ->
+  exists m h', hpop (qless etime) h = Some (m, h') /\ hpeek h = Some m /\
+    heap_ok (qless etime) h' /\ Permutation h (m :: h') /\
+    (forall y, In y h -> qless etime y m = false).
+Proof. intros E etime h. exact (hpop_spec _ (qless_asym etime) (qhle_trans etime) h). Qed.
+Print Assumptions c01_heap_pop_min.
+
+(** The heap refines the (time, seq)-sorted list: Push is sorted insertion, Pop/Peek take the
+    head, and popping until empty yields the sorted list. *)
+Theorem c01_heap_refines_sorted : forall (E : Type) (etime : E -> N),
+  let less := qless etime in
+  Repr less [] [] /\
+  (forall h l x, Repr less h l -> (forall y, In y l -> less x y = true \/ less y x = true) ->
+                 Repr less (hpush less h x) (sins less x l)) /\
+  (forall h m l, Repr less h (m :: l) ->
+                 exists h', hpop less h = Some (m, h') /\ hpeek h = Some m /\ Repr less h' l) /\
+  (forall h l fuel, Repr less h l -> (length l <= fuel)%nat -> hdrain less fuel h = l).
+Proof.
+  intros E etime less. split; [apply repr_nil|]. split; [|split].
+  - intros h l x. apply (repr_push _ (qless_asym etime) (qhle_trans etime) (qless_trans etime)).
+  - intros h m l. apply (repr_pop _ (qless_asym etime) (qhle_trans etime)).
+  - intros h l fuel. apply (repr_drain _ (qless_asym etime) (qhle_trans etime) (qless_trans etime) l h fuel).
+Qed.
+Print Assumptions c01_heap_refines_sorted.
+
+(* ------------------------------------------------------------------ the engine *)
+
+(** Any initial Schedule calls on a fresh engine succeed and give a state satisfying the invariant,
+    with exactly those events queued; sequence numbers follow the call order. *)
+Theorem c01_initial_schedule_ok : forall (E : Type) (etime : E -> N) (esec : E -> bool) (evs : list E),
+  schedule_all etime esec new_engine evs = (start_en etime esec evs, start_xs etime esec evs, true) /\
+  e_ok etime esec (start_en etime esec evs) /\
+  Permutation (pending (start_en etime esec evs)) (start_xs etime esec evs) /\
+  map fst (start_xs etime esec evs) = evs /\ e_now (start_en etime esec evs) = 0 /\
+  StronglySorted (Rseq esec) (start_xs etime esec evs).
+Proof.
+  intros E etime esec evs. destruct (start_spec etime esec evs) as (A & B & C & D & F & G & _).
+  split; [exact A|]. split; [exact B|]. split; [exact C|]. split; [exact D|]. split; [exact F|exact G].
+Qed.
+Print Assumptions c01_initial_schedule_ok.
+
+(** Handlers that never schedule in the past never make Run panic, the invariant holds afterwards. *)
+Theorem c01_no_panic_invariant_kept :
+  forall (E : Type) (etime : E -> N) (esec : E -> bool) (HS : Type) (H : HS -> E -> HS * list E),
+  H_ok etime H -> forall en0, e_ok etime esec en0 -> forall fuel hs,
+  let r := run etime esec H fuel hs en0 in
+  r_out r <> Panicked /\ e_ok etime esec (r_en r).
+Proof.
+  intros E etime esec HS H HH en0 Hok fuel hs r. split; [apply g_no_panic; assumption|].
+  destruct (run_exec_J etime esec H HH en0 Hok fuel hs) as [_ HJ]. exact (J_ok _ _ _ _ _ HJ).
+Qed.
+Print Assumptions c01_no_panic_invariant_kept.
+
+(** Exactly once: when Run terminates, the handled entries are a permutation of the entries that
+    were queued at the start or queued by Schedule during the run, and these have pairwise distinct
+    identities — every scheduled event is handled once, nothing else is handled. *)
+Theorem c01_exactly_once :
+  forall (E : Type) (etime : E -> N) (esec : E -> bool) (HS : Type) (H : HS -> E -> HS * list E),
+  H_ok etime H -> forall en0, e_ok etime esec en0 -> forall fuel hs,
+  let r := run etime esec H fuel hs en0 in
+  r_out r = Done ->
+  Permutation (handled (r_log r)) (pending en0 ++ scheduled (r_log r)) /\
+  NoDup (map (ident esec) (pending en0 ++ scheduled (r_log r))).
+Proof. intros E etime esec HS H HH en0 Hok fuel hs. exact (g_exactly_once etime esec H HH en0 Hok fuel hs). Qed.
+Print Assumptions c01_exactly_once.
+
+(** Simulated time never decreases across handled events (for runs of any length, terminated or
+    not), starts no earlier than the clock, the clock shows the time of the event being handled and
+    ends at the last handled event. *)
+Theorem c01_time_monotone :
+  forall (E : Type) (etime : E -> N) (esec : E -> bool) (HS : Type) (H : HS -> E -> HS * list E),
+  H_ok etime H -> forall en0, e_ok etime esec en0 -> forall fuel hs,
+  let r := run etime esec H fuel hs en0 in
+  StronglySorted N.le (map (qtime etime) (handled (r_log r))) /\
+  (forall x, In x (handled (r_log r)) -> e_now en0 <= qtime etime x) /\
+  Forall (fun s => st_now s = qtime etime (st_ev s)) (r_log r) /\
+  e_now (r_en r) = last (map (qtime etime) (handled (r_log r))) (e_now en0).
+Proof. intros E etime esec HS H HH en0 Hok fuel hs. exact (g_time_monotone etime esec H HH en0 Hok fuel hs). Qed.
+Print Assumptions c01_time_monotone.
+
+(** Whatever is handled is due before everything else pending at that moment — pending = queued at
+    the start or scheduled by an earlier step of the run, and not handled yet. *)
+Theorem c01_handled_is_due_first :
+  forall (E : Type) (etime : E -> N) (esec : E -> bool) (HS : Type) (H : HS -> E -> HS * list E),
+  H_ok etime H -> forall en0, e_ok etime esec en0 -> forall fuel hs l1 s l2,
+  r_log (run etime esec H fuel hs en0) = l1 ++ s :: l2 ->
+  forall y, In y (pending en0 ++ scheduled l1) -> ~ In y (handled l1) -> y <> st_ev s ->
+  before etime esec (st_ev s) y.
+Proof. intros E etime esec HS H HH en0 Hok fuel hs. exact (g_due_first etime esec H HH en0 Hok fuel hs). Qed.
+Print Assumptions c01_handled_is_due_first.
+
+(** Primary before secondary: at the moment a secondary event with time t is handled, every pending
+    primary — including primaries that handlers scheduled at t earlier in this very instant — has
+    a time strictly after t. *)
+Theorem c01_primary_before_secondary :
+  forall (E : Type) (etime : E -> N) (esec : E -> bool) (HS : Type) (H : HS -> E -> HS * list E),
+  H_ok etime H -> forall en0, e_ok etime esec en0 -> forall fuel hs l1 s l2,
+  r_log (run etime esec H fuel hs en0) = l1 ++ s :: l2 -> esec (fst (st_ev s)) = true ->
+  forall y, In y (pending en0 ++ scheduled l1) -> ~ In y (handled l1) -> esec (fst y) = false ->
+  qtime etime (st_ev s) < qtime etime y.
+Proof. intros E etime esec HS H HH en0 Hok fuel hs. exact (g_primary_before_secondary etime esec H HH en0 Hok fuel hs). Qed.
+Print Assumptions c01_primary_before_secondary.
+
+(** FIFO: of two handled events with the same time and class, the one handled later has the larger
+    sequence number ... *)
+Theorem c01_fifo_same_class :
+  forall (E : Type) (etime : E -> N) (esec : E -> bool) (HS : Type) (H : HS -> E -> HS * list E),
+  H_ok etime H -> forall en0, e_ok etime esec en0 -> forall fuel hs l1 s l2,
+  r_log (run etime esec H fuel hs en0) = l1 ++ s :: l2 ->
+  forall y, In y (handled l2) -> esec (fst y) = esec (fst (st_ev s)) ->
+  qtime etime y = qtime etime (st_ev s) -> qseq (st_ev s) < qseq y.
+Proof. intros E etime esec HS H HH en0 Hok fuel hs. exact (g_fifo etime esec H HH en0 Hok fuel hs). Qed.
+Print Assumptions c01_fifo_same_class.
+
+(** ... and sequence numbers follow the order of the Schedule calls (initial calls first, then the
+    calls made by handlers, in run order), separately for each class. *)
+Theorem c01_seq_is_schedule_order :
+  forall (E : Type) (etime : E -> N) (esec : E -> bool) (HS : Type) (H : HS -> E -> HS * list E),
+  H_ok etime H -> forall evs fuel hs,
+  StronglySorted (Rseq esec)
+    (start_xs etime esec evs ++ scheduled (r_log (run etime esec H fuel hs (start_en etime esec evs)))).
+Proof. intros E etime esec HS H HH. exact (g_all_sched_sorted etime esec H HH). Qed.
+Print Assumptions c01_seq_is_schedule_order.
+
+(** Hence: two events of the same time and class are handled in the order they were scheduled. *)
+Theorem c01_fifo_schedule_order :
+  forall (E : Type) (etime : E -> N) (esec : E -> bool) (HS : Type) (H : HS -> E -> HS * list E),
+  H_ok etime H -> forall evs fuel hs,
+  let r := run etime esec H fuel hs (start_en etime esec evs) in
+  r_out r = Done ->
+  forall p a q b t, start_xs etime esec evs ++ scheduled (r_log r) = p ++ a :: q ++ b :: t ->
+  esec (fst a) = esec (fst b) -> qtime etime a = qtime etime b ->
+  exists p' q' t', handled (r_log r) = p' ++ a :: q' ++ b :: t'.
+Proof. intros E etime esec HS H HH. exact (g_fifo_schedule_order etime esec H HH). Qed.
+Print Assumptions c01_fifo_schedule_order.
+
+(** Run returns normally only with both queues empty (and handlers only ever queue non-past events). *)
+Theorem c01_run_returns_empty :
+  forall (E : Type) (etime : E -> N) (esec : E -> bool) (HS : Type) (H : HS -> E -> HS * list E),
+  H_ok etime H -> forall en0, e_ok etime esec en0 -> forall fuel hs,
+  let r := run etime esec H fuel hs en0 in
+  (r_out r = Done -> q_heap (e_p (r_en r)) = [] /\ q_heap (e_s (r_en r)) = []) /\
+  (forall s y, In s (r_log r) -> In y (st_sched s) -> qtime etime (st_ev s) <= qtime etime y).
+Proof.
+  intros E etime esec HS H HH en0 Hok fuel hs r. split.
+  - intro Hd. destruct (g_returns_empty etime esec H HH en0 Hok fuel hs Hd) as [_ Hq]. exact Hq.
+  - exact (g_sched_future etime esec H HH en0 Hok fuel hs).
+Qed.
+Print Assumptions c01_run_returns_empty.
+
+(** Schedule rejects a past time (log.Panic), leaves the engine unchanged; Run then stops with
+    outcome Panicked at that handler. *)
+Theorem c01_schedule_past_panics : forall (E : Type) (etime : E -> N) (esec : E -> bool) en e,
+  etime e < e_now en -> schedule etime esec en e = None.
+Proof. intros E etime esec en e. exact (schedule_past etime esec en e). Qed.
+Print Assumptions c01_schedule_past_panics.
+
+(** The handler scripts used by the correspondence check satisfy the hypothesis of the theorems
+    whenever they contain no negative offset. *)
+Theorem c01_scripts_are_programs : forall p, nonneg_prog p -> H_ok s_time (script_handler p).
+Proof. exact script_H_ok. Qed.
+Print Assumptions c01_scripts_are_programs.
+
+(* ------------------------------------------------------------------ non-vacuity *)
+
+Definition ex_prog : program :=
+  [ [ [Sp 0 1 true; Sp 0 1 false; Sp 2 0 false] ]; [ [Sp 0 0 true] ] ].
+Definition ex_init : list ievent := [(0, 0, false, 3); (2, 1, true, 2); (2, 0, false, 1)].
+
+Lemma ex_prog_nonneg : nonneg_prog ex_prog.
+Proof.
+  intros alts alt sp Ha Hb Hc. unfold ex_prog in Ha. cbn in Ha.
+  repeat (destruct Ha as [<-|Ha]; [cbn in Hb; repeat (destruct Hb as [<-|Hb]; [cbn in Hc; repeat (destruct Hc as [<-|Hc]; [cbn; lia|]); destruct Hc|]); destruct Hb|]).
+  destruct Ha.
+Qed.
+
+(** the hypotheses are satisfiable by a run with same-instant primary/secondary chains: the
+    script terminates after 29 handled events, 26 of them scheduled from inside handlers *)
+Example c01_nonvacuous :
+  H_ok s_time (script_handler ex_prog) /\
+  e_ok s_time s_sec (start_en s_time s_sec (init_events 0 ex_init)) /\
+  let r := run_script ex_prog 30 ex_init in
+  r_out r = Done /\ length (r_log r) = 29%nat /\ length (scheduled (r_log r)) = 26%nat.
+Proof.
+  split; [apply script_H_ok; exact ex_prog_nonneg|]. split.
+  - destruct (start_spec s_time s_sec (init_events 0 ex_init)) as (_ & Hok & _). exact Hok.
+  - vm_compute. repeat split; reflexivity.
+Qed.
